@@ -48,7 +48,7 @@ V8_BASE = ["V8_lower.fn:lemma_*", "V8_lower.fn:FunctionModifier as *", "V8_lower
            "V8_lower.fn:InstrumentationFlag::*", "V8_lower.fn:Instruction::add_instr", "V8_lower.fn:FuncInstrFlag::add_instr", "V8_lower.fn:v_inject_all",
            # which functions the lowering visits at all (rule R23, unit V2)
            "V2_reindex.functions_visited_by_the_lowering.*", "V2_reindex.fn:Module::functions_visited_by_the_lowering"]
-LOWER_GLUE = ["Module::resolve_special_instrumentation: the per-function driver (block stack, which helper runs at which instruction, delete_block / retain_end bookkeeping, resolve_on_end maps) is not under contract, EXCEPT (i) the head of an outer iteration (unit V15, region take_function_level_code: exactly the local functions marked as carrying special instrumentation are lowered, their function-level entry / exit code is handed over as injected and the stored lists emptied, the FuncProbe records pulled) and the preparation of entry / exit code before the inner loop and (ii) WHICH functions the outer loop visits (rule R23, unit V2: every local function of the re-organised container; F30), (iii) ONE ITERATION of the inner loop (rule R19) for twelve cases, each a contract on the same extracted text restricted by its `requires`: inside a removed construct; the opener carrying a block-alternate; the matching `end` of a removed construct; an opener with only a block-entry probe; a block / loop with only a block-exit probe; a single-target branch with only a semantic-after probe; a br_table with only a semantic-after probe (flag created, due at the end of every target and of the default, request consumed); an `end` outside any removed construct with bodies pending in either or both tables (the two flush loops are replaced there by calls of the flush regions, verified on their own against the same text: both tables are flushed at this `end` and their entries taken off) - with function-level entry / exit code possibly pending: at the function's last instruction the wrapper block is closed and the exit code follows, spent there; an `else` outside any removed construct with bodies pending for 'the else or the end' of its `if` (flushed here, taken off, the other table untouched; the closure expression `block_stack.last().and_then(|b| table.remove(b))` that takes the entry off is verified as the match it stands for, rule R29); an `else` that carries a block-alternate (pending bodies of its `if` are still flushed here, then the else-arm is replaced and removed up to the `end`, which stays); a block / loop / if with ANY combination of block-entry, block-exit and semantic-after requests (each placed resp. registered as if it were alone, all consumed); an ordinary (not block-structured) instruction without special request, with function-level code possibly pending: entry code once in front of instruction 0, a copy of the exit code in front of every instruction that leaves the function (the four opener / branch cases are stated for functions without function-level entry / exit code). All other combinations (several special requests on a branch, special requests on `else` / `end` other than a block-alternate on `else`, function-level code together with a special request) are NOT decided; the plan tables are seen through the std HashMap view both where entries are added (save_* helpers, proved) and where they are removed and flushed; the lemmas `registered_is_flushed.*` connect the two (the code emitted for an entry is a function of its plan view; a registered body is emitted after what was already due under the same construct and mode, every other entry keeps its code), but the composition over a whole function body (registration at the opener, flush at the matching end, many iterations apart) is not stated as one theorem",
+LOWER_GLUE = ["Module::resolve_special_instrumentation: the per-function driver (block stack, which helper runs at which instruction, delete_block / retain_end bookkeeping, resolve_on_end maps) is not under contract, EXCEPT (i) the head of an outer iteration (unit V15, region take_function_level_code: exactly the local functions marked as carrying special instrumentation are lowered, their function-level entry / exit code is handed over as injected and the stored lists emptied, the FuncProbe records pulled) and the preparation of entry / exit code before the inner loop and (ii) WHICH functions the outer loop visits (rule R23, unit V2: every local function of the re-organised container; F30), (iii) ONE ITERATION of the inner loop (rule R19) for thirteen cases, each a contract on the same extracted text restricted by its `requires`: inside a removed construct; the opener carrying a block-alternate (also with function-level entry / exit code pending: the entry code is placed in front of instruction 0 before the opener is replaced, and spent); the matching `end` of a removed construct; an opener with only a block-entry probe; a block / loop with only a block-exit probe; a single-target branch with only a semantic-after probe; a br_table with only a semantic-after probe (flag created, due at the end of every target and of the default, request consumed); an `end` outside any removed construct with bodies pending in either or both tables (the two flush loops are replaced there by calls of the flush regions, verified on their own against the same text: both tables are flushed at this `end` and their entries taken off) - with function-level entry / exit code possibly pending: at the function's last instruction the wrapper block is closed and the exit code follows, spent there; an `else` outside any removed construct with bodies pending for 'the else or the end' of its `if` (flushed here, taken off, the other table untouched; the closure expression `block_stack.last().and_then(|b| table.remove(b))` that takes the entry off is verified as the match it stands for, rule R29); an `else` that carries a block-alternate (pending bodies of its `if` are still flushed here, then the else-arm is replaced and removed up to the `end`, which stays); a block / loop / if with ANY combination of block-entry, block-exit and semantic-after requests (each placed resp. registered as if it were alone, all consumed); an ordinary (not block-structured) instruction without special request, with function-level code possibly pending: entry code once in front of instruction 0, a copy of the exit code in front of every instruction that leaves the function (the four opener / branch cases are stated for functions without function-level entry / exit code). All other combinations (several special requests on a branch, special requests on `else` / `end` other than a block-alternate on `else`, function-level code together with a special request) are NOT decided; the plan tables are seen through the std HashMap view both where entries are added (save_* helpers, proved) and where they are removed and flushed; the lemmas `registered_is_flushed.*` connect the two (the code emitted for an entry is a function of its plan view; a registered body is emitted after what was already due under the same construct and mode, every other entry keeps its code), but the composition over a whole function body (registration at the opener, flush at the matching end, many iterations apart) is not stated as one theorem",
               "the final emission of before / alternate / after lists in encode_internal",
               "'fires once when ...' is an execution-trace property: neither verifier has a WebAssembly semantics; what is proved is WHERE each helper places WHICH code (placement contracts written from the property text)",
               "TRUSTED: Inject::inject_all injects the slice in order (closure capturing &mut self)"]
@@ -318,7 +318,7 @@ PROPS = {
     "C17": {
         "title": "Function entry/exit probes fire once per call on every normal path",
         "units": ["V8_lower", "V2_reindex", "V15_probes"],
-        "obligations": V8_BASE + ["V15_probes.take_function_level_code.functions_marked_special_are_lowered_the_others_skipped", "V15_probes.take_function_level_code.entry_and_exit_code_handed_over_as_injected", "V15_probes.take_function_level_code.stored_function_level_code_is_emptied", "V15_probes.fn:Module::take_function_level_code", "V15_probes.fn:Functions::get_kind_mut", "V8_lower.lower_one_instruction.*", "V8_lower.fn:Module::lower_one_instruction", "V8_lower.fn:InstrumentationFlag::has_instr", "V8_lower.resolve_function_entry.*", "V8_lower.fn:resolve_function_entry", "V8_lower.resolve_function_exit.*", "V8_lower.fn:resolve_function_exit",
+        "obligations": V8_BASE + ["V8_lower.lower_block_alt_opener_fl.*", "V8_lower.fn:Module::lower_block_alt_opener_with_function_level_code", "V15_probes.take_function_level_code.functions_marked_special_are_lowered_the_others_skipped", "V15_probes.take_function_level_code.entry_and_exit_code_handed_over_as_injected", "V15_probes.take_function_level_code.stored_function_level_code_is_emptied", "V15_probes.fn:Module::take_function_level_code", "V15_probes.fn:Functions::get_kind_mut", "V8_lower.lower_one_instruction.*", "V8_lower.fn:Module::lower_one_instruction", "V8_lower.fn:InstrumentationFlag::has_instr", "V8_lower.resolve_function_entry.*", "V8_lower.fn:resolve_function_entry", "V8_lower.resolve_function_exit.*", "V8_lower.fn:resolve_function_exit",
                                   "V8_lower.exit_wrapper.*", "V8_lower.fn:resolve_function_exit_with_block_wrapper", "V8_lower.prepare_function_exit.*", "V8_lower.fn:Module::prepare_function_exit", "V8_lower.fn:Functions::get_type_id", "V8_lower.fn:Types::results",
                                   "V8_lower.lower_plain_instruction.*", "V8_lower.fn:Module::lower_plain_instruction_with_function_level_code",
                                   "V8_lower.lower_end_with_pending_bodies.*", "V8_lower.fn:Module::lower_end_with_pending_bodies", "V8_lower.flush_*", "V8_lower.fn:Module::flush_*"],
@@ -360,14 +360,14 @@ PROPS = {
     "C21": {
         "title": "Block alternate replaces exactly the selected construct",
         "units": ["V8_lower", "V2_reindex"],
-        "obligations": V8_BASE + ["V8_lower.lower_block_alt_opener.*", "V8_lower.fn:Module::lower_block_alt_opener", "V8_lower.lower_else_block_alt.*", "V8_lower.fn:Module::lower_else_block_alt", "V8_lower.flush_at_else.*", "V8_lower.fn:Module::flush_at_else", "V8_lower.lower_closing_end.*", "V8_lower.fn:Module::lower_closing_end_of_removed_construct", "V8_lower.lower_one_instruction.*", "V8_lower.fn:Module::lower_one_instruction", "V8_lower.fn:InstrumentationFlag::has_instr", "V8_lower.plan_resolution_block_alt.*", "V8_lower.fn:plan_resolution_block_alt", "V8_lower.fn:Body::clear_instr"],
+        "obligations": V8_BASE + ["V8_lower.lower_block_alt_opener_fl.*", "V8_lower.fn:Module::lower_block_alt_opener_with_function_level_code", "V8_lower.lower_block_alt_opener.*", "V8_lower.fn:Module::lower_block_alt_opener", "V8_lower.lower_else_block_alt.*", "V8_lower.fn:Module::lower_else_block_alt", "V8_lower.flush_at_else.*", "V8_lower.fn:Module::flush_at_else", "V8_lower.lower_closing_end.*", "V8_lower.fn:Module::lower_closing_end_of_removed_construct", "V8_lower.lower_one_instruction.*", "V8_lower.fn:Module::lower_one_instruction", "V8_lower.fn:InstrumentationFlag::has_instr", "V8_lower.plan_resolution_block_alt.*", "V8_lower.fn:plan_resolution_block_alt", "V8_lower.fn:Body::clear_instr"],
         "glue": LOWER_GLUE, "design_ref": "DESIGN.md §5 C21",
         "level_text": "Placement only: on block / loop / if / else the replacement becomes the ALTERNATE of the opening instruction (an empty replacement becomes an empty alternate = removal), the construct's end is kept only for `else`; other instructions untouched. Driver (one iteration): the opener / else starts the removal, every instruction inside is removed with nothing else planned on it (no exit code, no probe), the nesting is tracked, the matching `end` ends it; F16, F23 fixed.",
     },
     "C22": {
         "title": "Special-mode injections are never silently lost",
         "units": ["V4_inject", "V4b_iter_inject", "V11_emit", "V8_lower", "V15_probes"],
-        "obligations": V11_EMIT + ["V8_lower.lower_plain_instruction.*", "V8_lower.fn:Module::lower_plain_instruction_with_function_level_code", "V8_lower.lower_end_with_pending_bodies.function_level_code_spent_where_placed", "V8_lower.fn:Module::lower_end_with_pending_bodies", "V8_lower.lower_one_instruction.no_entry_or_exit_code_for_a_removed_instruction", "V8_lower.fn:Module::lower_one_instruction", "V15_probes.take_function_level_code.functions_marked_special_are_lowered_the_others_skipped", "V15_probes.take_function_level_code.entry_and_exit_code_handed_over_as_injected", "V15_probes.take_function_level_code.stored_function_level_code_is_emptied", "V15_probes.fn:Module::take_function_level_code", "V15_probes.fn:Functions::get_kind_mut", "V8_lower.prepare_function_exit.*", "V8_lower.fn:Module::prepare_function_exit", "V8_lower.fn:Functions::get_type_id", "V8_lower.fn:Types::results", "V4b_iter_inject.ModuleIterator.*", "V4b_iter_inject.fn:ModuleIterator as *", "V4b_iter_inject.ComponentIterator.*", "V4b_iter_inject.fn:ComponentIterator as *", "V4b_iter_inject.fn:Functions::get_mut"] + ["V4_inject.InstrumentationFlag.add_instr.*", "V4_inject.fn:InstrumentationFlag::add_instr", "V4_inject.is_block_style_op.*", "V4_inject.is_branching_op.*",
+        "obligations": V11_EMIT + ["V8_lower.lower_block_alt_opener_fl.*", "V8_lower.fn:Module::lower_block_alt_opener_with_function_level_code", "V8_lower.lower_plain_instruction.*", "V8_lower.fn:Module::lower_plain_instruction_with_function_level_code", "V8_lower.lower_end_with_pending_bodies.function_level_code_spent_where_placed", "V8_lower.fn:Module::lower_end_with_pending_bodies", "V8_lower.lower_one_instruction.no_entry_or_exit_code_for_a_removed_instruction", "V8_lower.fn:Module::lower_one_instruction", "V15_probes.take_function_level_code.functions_marked_special_are_lowered_the_others_skipped", "V15_probes.take_function_level_code.entry_and_exit_code_handed_over_as_injected", "V15_probes.take_function_level_code.stored_function_level_code_is_emptied", "V15_probes.fn:Module::take_function_level_code", "V15_probes.fn:Functions::get_kind_mut", "V8_lower.prepare_function_exit.*", "V8_lower.fn:Module::prepare_function_exit", "V8_lower.fn:Functions::get_type_id", "V8_lower.fn:Types::results", "V4b_iter_inject.ModuleIterator.*", "V4b_iter_inject.fn:ModuleIterator as *", "V4b_iter_inject.ComponentIterator.*", "V4b_iter_inject.fn:ComponentIterator as *", "V4b_iter_inject.fn:Functions::get_mut"] + ["V4_inject.InstrumentationFlag.add_instr.*", "V4_inject.fn:InstrumentationFlag::add_instr", "V4_inject.is_block_style_op.*", "V4_inject.is_branching_op.*",
                         "V4_inject.fn:InstrumentationFlag::is_block_style_op", "V4_inject.fn:InstrumentationFlag::is_branching_op",
                         "V4_inject.FuncInstrFlag.*", "V4_inject.fn:FuncInstrFlag::add_instr", "V4_inject.fn:Instruction::add_instr",
                         "V4_inject.LocalFunction.*", "V4_inject.fn:LocalFunction::add_instr",
